@@ -93,16 +93,23 @@ def RunSt.feed (m : Machine σ α β) (mode : SrcMode) (r : RunSt σ α β) (x :
 def Machine.start (m : Machine σ α β) (sub : Ctx) : RunSt σ α β :=
   ({ st := (m.onSubscribe m.init sub).1 } : RunSt σ α β).pushAll (m.onSubscribe m.init sub).2
 
+/-- When `Subscribe` returns, the teardown the subscribe function returned is added to the
+    subscription; if the downstream subscriber is already closed (the operator emitted a terminal
+    by itself) it runs at once (`subscription.go:78-91`) and a hot source is unsubscribed before it
+    emits anything. A synchronous source has emitted everything before that point. -/
+def RunSt.afterSubscribe (r : RunSt σ α β) (mode : SrcMode) : RunSt σ α β :=
+  if mode == SrcMode.hot && !r.downOpen then { r with upOpen := false } else r
+
 /-- Run a raw script. `sub` is the subscription context. -/
 def runOp (m : Machine σ α β) (mode : SrcMode) (sub : Ctx) (raw : List (Notif α)) : RunSt σ α β :=
   let r0 := m.start sub
-  if m.subscribes then raw.foldl (RunSt.feed m mode) r0 else r0
+  if m.subscribes then raw.foldl (RunSt.feed m mode) (r0.afterSubscribe mode) else r0
 
 /-- Run a raw script and call `Unsubscribe` from outside after `k` notifications (hot sources). -/
 def runOpCut (m : Machine σ α β) (sub : Ctx) (raw : List (Notif α)) (k : Nat) : RunSt σ α β :=
   let r0 := m.start sub
   if m.subscribes then
-    let r1 := (raw.take k).foldl (RunSt.feed m .hot) r0
+    let r1 := (raw.take k).foldl (RunSt.feed m .hot) (r0.afterSubscribe .hot)
     (raw.drop k).foldl (RunSt.feed m .hot) { r1 with upOpen := false, downOpen := false }
   else r0
 
